@@ -116,4 +116,496 @@ theorem wf_applyBCs {s : St} (h : WFSt s) {v : Nat} (hv : v < s.nV) : WFSt (appl
       · exact hx.cache c
     · exact h.vars u hu
 
+
+def applyVar (c : Nat) (x : Var) : Var :=
+  { x with ghostI := x.interior, ghostB := c,
+           cache := if x.precalc then some c else x.cache, applied := c, valMod := false }
+
+theorem applyBCs_vars' (s : St) (v u : Nat) :
+    (applyBCs s v).vars u =
+      if u = v then applyVar (s.bcs (s.vars v).bc).content (s.vars v) else s.vars u := rfl
+
+def preSolve (s : St) (v : Nat) : St :=
+  if !(s.vars v).precalc then applyBCs (setVar s v { s.vars v with precalc := true }) v
+  else if outdated s (s.vars v) then applyBCs s v else s
+
+def postSolve (s1 : St) (v : Nat) : St :=
+  applyBCs { setVar s1 v { s1.vars v with interior := s1.next } with next := s1.next + 1 } v
+
+theorem step_solve {s : St} {v : Nat} (h : v < s.nV) :
+    step s (.solve v) =
+      (postSolve (preSolve s v) v,
+       Out.solved ((preSolve s v).vars v).cache ((preSolve s v).vars v).interior) := by
+  simp only [step, if_pos h]; rfl
+
+def preExplicit (s : St) (v : Nat) : St :=
+  if outdated s (s.vars v) then applyBCs s v else s
+
+def postExplicit (s1 : St) (b : Nat) : St :=
+  applyBCs { setVar s1 s1.nV (mkVar s1 b s1.next false) with nV := s1.nV + 1, next := s1.next + 1 } s1.nV
+
+theorem step_solveExplicit {s : St} {v : Nat} (h : v < s.nV) :
+    step s (.solveExplicit v) =
+      (postExplicit (preExplicit s v) (s.vars v).bc, Out.newVar (preExplicit s v).nV) := by
+  simp only [step, if_pos h]; rfl
+
+/-- replacing a live variable by a well-formed one -/
+theorem wf_setVar {s : St} (h : WFSt s) {v : Nat} {x : Var} (hx : WFVar s.nB s.next x) :
+    WFSt (setVar s v x) := by
+  constructor
+  · exact h.bcs
+  · intro u hu
+    simp only [setVar] at hu ⊢
+    split
+    · exact hx
+    · exact h.vars u hu
+
+/-- bumping the stamp counter -/
+theorem wf_bump {s : St} (h : WFSt s) : WFSt { s with next := s.next + 1 } :=
+  ⟨fun b hb => Nat.lt_succ_of_lt (h.bcs b hb),
+   fun v hv => (h.vars v hv).mono (Nat.le_refl _) (Nat.le_succ _)⟩
+
+/-- appending a well-formed variable -/
+theorem wf_pushVar {s : St} (h : WFSt s) {x : Var} (hx : WFVar s.nB s.next x) :
+    WFSt { setVar s s.nV x with nV := s.nV + 1 } := by
+  constructor
+  · exact h.bcs
+  · intro u hu
+    simp only [setVar] at hu ⊢
+    split
+    · exact hx
+    · exact h.vars u (by omega)
+
+/-- appending a boundary-condition object -/
+theorem wf_pushBC {s : St} (h : WFSt s) {o : BCObj} (ho : o.content < s.next) :
+    WFSt { setBC s s.nB o with nB := s.nB + 1 } := by
+  constructor
+  · intro b hb
+    simp only [setBC] at hb ⊢
+    split
+    · exact ho
+    · exact h.bcs b (by omega)
+  · intro u hu
+    exact (h.vars u hu).mono (Nat.le_succ _) (Nat.le_refl _)
+
+theorem wf_mkVar {s : St} (h : WFSt s) {b : Nat} (hb : b < s.nB) (p : Bool) :
+    WFVar s.nB (s.next + 1) (mkVar s b s.next p) := by
+  have hc := h.bcs b hb
+  refine ⟨hb, ?_, ?_, ?_, ?_, ?_⟩ <;> simp only [mkVar]
+  · omega
+  · omega
+  · omega
+  · omega
+  · intro c; split
+    · intro e; cases e; omega
+    · intro e; cases e
+
+theorem preSolve_nV (s : St) (v : Nat) : (preSolve s v).nV = s.nV := by
+  unfold preSolve; split
+  · rfl
+  · split <;> rfl
+
+theorem wf_preSolve {s : St} (h : WFSt s) {v : Nat} (hv : v < s.nV) : WFSt (preSolve s v) := by
+  unfold preSolve
+  split
+  · apply wf_applyBCs (wf_setVar h _) hv
+    have := h.vars v hv
+    exact ⟨this.bc, this.interior, this.ghostI, this.ghostB, this.applied, this.cache⟩
+  · split
+    · exact wf_applyBCs h hv
+    · exact h
+
+theorem wf_postSolve {s : St} (h : WFSt s) {v : Nat} (hv : v < s.nV) : WFSt (postSolve s v) := by
+  unfold postSolve
+  have hx := h.vars v hv
+  have h1 : WFSt (setVar { s with next := s.next + 1 } v { s.vars v with interior := s.next }) := by
+    apply wf_setVar (wf_bump h)
+    have := (hx.mono (Nat.le_refl _) (Nat.le_succ s.next))
+    exact ⟨this.bc, Nat.lt_succ_self _, this.ghostI, this.ghostB, this.applied, this.cache⟩
+  exact wf_applyBCs h1 hv
+
+theorem preExplicit_nV (s : St) (v : Nat) : (preExplicit s v).nV = s.nV := by
+  unfold preExplicit; split <;> rfl
+theorem preExplicit_nB (s : St) (v : Nat) : (preExplicit s v).nB = s.nB := by
+  unfold preExplicit; split <;> rfl
+
+theorem wf_preExplicit {s : St} (h : WFSt s) {v : Nat} (hv : v < s.nV) :
+    WFSt (preExplicit s v) := by
+  unfold preExplicit; split
+  · exact wf_applyBCs h hv
+  · exact h
+
+theorem wf_postExplicit {s : St} (h : WFSt s) {b : Nat} (hb : b < s.nB) :
+    WFSt (postExplicit s b) := by
+  unfold postExplicit
+  have h1 : WFSt { setVar { s with next := s.next + 1 } s.nV (mkVar s b s.next false) with
+                   nV := s.nV + 1 } :=
+    wf_pushVar (s := { s with next := s.next + 1 }) (wf_bump h) (wf_mkVar h hb false)
+  exact wf_applyBCs h1 (Nat.lt_succ_self _)
+
+theorem wf_step {s : St} (h : WFSt s) (op : Op) : WFSt (step s op).1 := by
+  cases op with
+  | newBC =>
+    exact wf_pushBC (s := { s with next := s.next + 1 }) (o := ⟨s.next, false⟩) (wf_bump h)
+      (Nat.lt_succ_self _)
+  | newVar b =>
+    simp only [step]; split
+    · next hb =>
+      exact wf_pushVar (s := { s with next := s.next + 1 }) (wf_bump h) (wf_mkVar h hb true)
+    · exact h
+  | newVarDefault =>
+    have h1 : WFSt { setBC { s with next := s.next + 1 } s.nB ⟨s.next, false⟩ with nB := s.nB + 1 } :=
+      wf_pushBC (s := { s with next := s.next + 1 }) (o := ⟨s.next, false⟩) (wf_bump h)
+        (Nat.lt_succ_self _)
+    have h2 := wf_pushVar (wf_bump h1) (wf_mkVar h1 (b := s.nB) (Nat.lt_succ_self _) true)
+    exact h2
+  | editBC b =>
+    simp only [step]; split
+    · constructor
+      · intro b' hb'
+        simp only [setBC] at hb' ⊢
+        split
+        · exact Nat.lt_succ_self _
+        · exact Nat.lt_succ_of_lt (h.bcs b' hb')
+      · intro u hu
+        exact (h.vars u hu).mono (Nat.le_refl _) (Nat.le_succ _)
+    · exact h
+  | editBCSilent b =>
+    simp only [step]; split
+    · constructor
+      · intro b' hb'
+        simp only [setBC] at hb' ⊢
+        split
+        · exact Nat.lt_succ_self _
+        · exact Nat.lt_succ_of_lt (h.bcs b' hb')
+      · intro u hu
+        exact (h.vars u hu).mono (Nat.le_refl _) (Nat.le_succ _)
+    · exact h
+  | editVal v =>
+    simp only [step]; split
+    · next hv =>
+      have hx := (h.vars v hv).mono (Nat.le_refl _) (Nat.le_succ s.next)
+      exact wf_setVar (s := { s with next := s.next + 1 }) (wf_bump h)
+        ⟨hx.bc, Nat.lt_succ_self _, hx.ghostI, hx.ghostB, hx.applied, hx.cache⟩
+    · exact h
+  | updateValue v w =>
+    simp only [step]; split
+    · next hvw =>
+      have hx := h.vars v hvw.1
+      have hy := h.vars w hvw.2
+      exact wf_setVar h ⟨hx.bc, hy.interior, hy.ghostI, hy.ghostB, hx.applied, hx.cache⟩
+    · exact h
+  | applyBCs v =>
+    simp only [step]; split
+    · next hv => exact wf_applyBCs h hv
+    · exact h
+  | solve v =>
+    by_cases hv : v < s.nV
+    · rw [step_solve hv]
+      exact wf_postSolve (wf_preSolve h hv) (by rw [preSolve_nV]; exact hv)
+    · simp only [step, if_neg hv]; exact h
+  | solveExplicit v =>
+    by_cases hv : v < s.nV
+    · rw [step_solveExplicit hv]
+      exact wf_postExplicit (wf_preExplicit h hv) (by rw [preExplicit_nB]; exact (h.vars v hv).bc)
+    · simp only [step, if_neg hv]; exact h
+  | copy v =>
+    simp only [step]; split
+    · next hv =>
+      have hx := h.vars v hv
+      have hc := h.bcs _ hx.bc
+      have h1 : WFSt { setBC s s.nB (s.bcs (s.vars v).bc) with nB := s.nB + 1 } := wf_pushBC h hc
+      refine wf_pushVar h1 ⟨Nat.lt_succ_self _, hx.interior, hx.ghostI, hx.ghostB, hc, ?_⟩
+      intro c e; cases e; exact hc
+    · exact h
+  | arith v =>
+    simp only [step]; split
+    · next hv =>
+      have hx := h.vars v hv
+      have hc := h.bcs _ hx.bc
+      have h1 : WFSt { setBC s s.nB (s.bcs (s.vars v).bc) with nB := s.nB + 1 } := wf_pushBC h hc
+      have h2 := wf_pushVar (wf_bump h1) (wf_mkVar h1 (b := s.nB) (Nat.lt_succ_self _) true)
+      exact h2
+    · exact h
+
+/-! ### projections of the pieces of `solve` / `solveExplicit` -/
+
+theorem preSolve_nB (s : St) (v : Nat) : (preSolve s v).nB = s.nB := by
+  unfold preSolve; split
+  · rfl
+  · split <;> rfl
+
+theorem preSolve_next (s : St) (v : Nat) : (preSolve s v).next = s.next := by
+  unfold preSolve; split
+  · rfl
+  · split <;> rfl
+
+theorem preSolve_vars_ne (s : St) {v u : Nat} (h : u ≠ v) : (preSolve s v).vars u = s.vars u := by
+  unfold preSolve; split
+  · rw [applyBCs_vars', if_neg h]; simp only [setVar, if_neg h]
+  · split
+    · rw [applyBCs_vars', if_neg h]
+    · rfl
+
+theorem preSolve_content (s : St) (v b : Nat) :
+    ((preSolve s v).bcs b).content = (s.bcs b).content := by
+  unfold preSolve; split
+  · rw [applyBCs_content]; rfl
+  · split
+    · rw [applyBCs_content]
+    · rfl
+
+theorem preSolve_bcs_ne (s : St) {v b : Nat} (h : b ≠ (s.vars v).bc) :
+    (preSolve s v).bcs b = s.bcs b := by
+  unfold preSolve; split
+  · rw [applyBCs_bcs]; simp only [setVar, ↓reduceIte]; rw [if_neg h]
+  · split
+    · rw [applyBCs_bcs, if_neg h]
+    · rfl
+
+theorem preSolve_self (s : St) (v : Nat) :
+    ((preSolve s v).vars v).bc = (s.vars v).bc ∧
+    ((preSolve s v).vars v).interior = (s.vars v).interior ∧
+    ((preSolve s v).vars v).precalc = true := by
+  unfold preSolve; split
+  · rw [applyBCs_vars', if_pos rfl]; simp only [setVar, ↓reduceIte, applyVar]; simp
+  · next hp =>
+    have hp' : (s.vars v).precalc = true := by simpa using hp
+    split
+    · rw [applyBCs_vars', if_pos rfl]; simp only [applyVar]; simp [hp']
+    · simp [hp']
+
+
+
+theorem postSolve_vars (s : St) (v u : Nat) :
+    (postSolve s v).vars u =
+      if u = v then applyVar (s.bcs (s.vars v).bc).content { s.vars v with interior := s.next }
+      else s.vars u := by
+  unfold postSolve
+  rw [applyBCs_vars']
+  simp only [setVar, ↓reduceIte]
+  by_cases h : u = v
+  · simp only [if_pos h]
+  · simp only [if_neg h]
+
+theorem postSolve_bcs (s : St) (v b : Nat) :
+    (postSolve s v).bcs b =
+      if b = (s.vars v).bc then { content := (s.bcs (s.vars v).bc).content, modified := false }
+      else s.bcs b := by
+  unfold postSolve
+  rw [applyBCs_bcs]
+  simp only [setVar, ↓reduceIte]
+
+theorem postSolve_nV (s : St) (v : Nat) : (postSolve s v).nV = s.nV := rfl
+theorem postSolve_nB (s : St) (v : Nat) : (postSolve s v).nB = s.nB := rfl
+theorem postSolve_next (s : St) (v : Nat) : (postSolve s v).next = s.next + 1 := rfl
+
+theorem preExplicit_next (s : St) (v : Nat) : (preExplicit s v).next = s.next := by
+  unfold preExplicit; split <;> rfl
+
+theorem preExplicit_vars (s : St) (v u : Nat) :
+    (preExplicit s v).vars u = s.vars u ∨
+    (u = v ∧ (preExplicit s v).vars u = applyVar (s.bcs (s.vars v).bc).content (s.vars v)) := by
+  unfold preExplicit; split
+  · rw [applyBCs_vars']; split
+    · next h => exact Or.inr ⟨h, rfl⟩
+    · exact Or.inl rfl
+  · exact Or.inl rfl
+
+theorem preExplicit_vars_ne (s : St) {v u : Nat} (h : u ≠ v) :
+    (preExplicit s v).vars u = s.vars u := by
+  rcases preExplicit_vars s v u with h1 | ⟨h1, _⟩
+  · exact h1
+  · exact absurd h1 h
+
+theorem preExplicit_content (s : St) (v b : Nat) :
+    ((preExplicit s v).bcs b).content = (s.bcs b).content := by
+  unfold preExplicit; split
+  · rw [applyBCs_content]
+  · rfl
+
+theorem preExplicit_bcs_ne (s : St) {v b : Nat} (h : b ≠ (s.vars v).bc) :
+    (preExplicit s v).bcs b = s.bcs b := by
+  unfold preExplicit; split
+  · rw [applyBCs_bcs, if_neg h]
+  · rfl
+
+theorem postExplicit_vars (s : St) (b u : Nat) :
+    (postExplicit s b).vars u =
+      if u = s.nV then applyVar (s.bcs b).content (mkVar s b s.next false) else s.vars u := by
+  unfold postExplicit
+  rw [applyBCs_vars']
+  simp only [setVar, ↓reduceIte, mkVar]
+  by_cases h : u = s.nV
+  · simp only [if_pos h]
+  · simp only [if_neg h]
+
+theorem postExplicit_bcs (s : St) (b b' : Nat) :
+    (postExplicit s b).bcs b' =
+      if b' = b then { content := (s.bcs b).content, modified := false } else s.bcs b' := by
+  unfold postExplicit
+  rw [applyBCs_bcs]
+  simp only [setVar, ↓reduceIte, mkVar]
+
+theorem postExplicit_nV (s : St) (b : Nat) : (postExplicit s b).nV = s.nV + 1 := rfl
+theorem postExplicit_nB (s : St) (b : Nat) : (postExplicit s b).nB = s.nB := rfl
+
+
+/-! ### per-variable invariants -/
+
+/-- the variable created by `.copy v` -/
+def copyVar (s : St) (v : Nat) : Var :=
+  { bc := s.nB, interior := (s.vars v).interior, ghostI := (s.vars v).ghostI,
+    ghostB := (s.vars v).ghostB, cache := some (s.bcs (s.vars v).bc).content,
+    applied := (s.bcs (s.vars v).bc).content, valMod := false, precalc := true }
+
+/-- the state after the BC object of `.newVarDefault` was created -/
+def withDefaultBC (s : St) : St :=
+  { setBC s s.nB { content := s.next, modified := false } with nB := s.nB + 1, next := s.next + 1 }
+
+/-- the state after the BC object of `.copy v` / `.arith v` was deep-copied -/
+def withCopiedBC (s : St) (v : Nat) : St :=
+  { setBC s s.nB (s.bcs (s.vars v).bc) with nB := s.nB + 1 }
+
+/-! ### `vars` / `nV` after the creating ops -/
+
+theorem step_newVar_vars {s : St} {b : Nat} (hb : b < s.nB) (u : Nat) :
+    (step s (.newVar b)).1.vars u = if u = s.nV then mkVar s b s.next true else s.vars u := by
+  simp only [step, if_pos hb]; rfl
+theorem step_newVar_nV {s : St} {b : Nat} (hb : b < s.nB) : (step s (.newVar b)).1.nV = s.nV + 1 := by
+  simp only [step, if_pos hb]
+theorem step_newVarDefault_vars (s : St) (u : Nat) :
+    (step s .newVarDefault).1.vars u =
+      if u = s.nV then mkVar (withDefaultBC s) s.nB (s.next + 1) true else s.vars u := rfl
+theorem step_newVarDefault_nV (s : St) : (step s .newVarDefault).1.nV = s.nV + 1 := rfl
+theorem step_copy_vars {s : St} {v : Nat} (hv : v < s.nV) (u : Nat) :
+    (step s (.copy v)).1.vars u = if u = s.nV then copyVar s v else s.vars u := by
+  simp only [step, if_pos hv]; rfl
+theorem step_copy_nV {s : St} {v : Nat} (hv : v < s.nV) : (step s (.copy v)).1.nV = s.nV + 1 := by
+  simp only [step, if_pos hv]; rfl
+theorem step_arith_vars {s : St} {v : Nat} (hv : v < s.nV) (u : Nat) :
+    (step s (.arith v)).1.vars u =
+      if u = s.nV then mkVar (withCopiedBC s v) s.nB s.next true else s.vars u := by
+  simp only [step, if_pos hv]; rfl
+theorem step_arith_nV {s : St} {v : Nat} (hv : v < s.nV) : (step s (.arith v)).1.nV = s.nV + 1 := by
+  simp only [step, if_pos hv]; rfl
+
+theorem step_invalid_newVar {s : St} {b : Nat} (hb : ¬ b < s.nB) : step s (.newVar b) = (s, .invalid) := by
+  simp only [step, if_neg hb]
+theorem step_invalid_copy {s : St} {v : Nat} (hv : ¬ v < s.nV) : step s (.copy v) = (s, .invalid) := by
+  simp only [step, if_neg hv]
+theorem step_invalid_arith {s : St} {v : Nat} (hv : ¬ v < s.nV) : step s (.arith v) = (s, .invalid) := by
+  simp only [step, if_neg hv]
+theorem step_invalid_solve {s : St} {v : Nat} (hv : ¬ v < s.nV) : step s (.solve v) = (s, .invalid) := by
+  simp only [step, if_neg hv]
+theorem step_invalid_solveExplicit {s : St} {v : Nat} (hv : ¬ v < s.nV) :
+    step s (.solveExplicit v) = (s, .invalid) := by
+  simp only [step, if_neg hv]
+
+/-- a predicate holds of every live variable -/
+def VarInv (P : Var → Prop) (s : St) : Prop := ∀ v, v < s.nV → P (s.vars v)
+
+theorem varInv_init (P : Var → Prop) : VarInv P init := fun _ hv => absurd hv (Nat.not_lt_zero _)
+
+/-- one-step preservation of a per-variable invariant `P` that is established by `apply_BCs`
+    and by the constructor and preserved by value edits; the `copy` case is left to the caller -/
+theorem varInv_step {P : Var → Prop}
+    (hA : ∀ c x, P (applyVar c x))
+    (hM : ∀ s b i p, P (mkVar s b i p))
+    (hE : ∀ x n, P x → P { x with interior := n, valMod := true })
+    (hU : ∀ x (y : Var), P x →
+      P { x with interior := y.interior, ghostI := y.ghostI, ghostB := y.ghostB, valMod := true })
+    {s : St} (op : Op)
+    (hC : ∀ v, op = .copy v → v < s.nV → P (s.vars v) → P (copyVar s v))
+    (h : VarInv P s) : VarInv P (step s op).1 := by
+  cases op with
+  | newBC => exact h
+  | newVar b =>
+    by_cases hb : b < s.nB
+    · intro u hu
+      rw [step_newVar_nV hb] at hu
+      rw [step_newVar_vars hb]; split
+      · exact hM _ _ _ _
+      · exact h u (by omega)
+    · rw [step_invalid_newVar hb]; exact h
+  | newVarDefault =>
+    intro u hu
+    rw [step_newVarDefault_nV] at hu
+    rw [step_newVarDefault_vars]; split
+    · exact hM _ _ _ _
+    · exact h u (by omega)
+  | editBC b =>
+    simp only [step]; split
+    · exact h
+    · exact h
+  | editBCSilent b =>
+    simp only [step]; split
+    · exact h
+    · exact h
+  | editVal v =>
+    simp only [step]; split
+    · next hv =>
+      intro u hu
+      simp only [setVar] at hu ⊢
+      split
+      · exact hE _ _ (h v hv)
+      · exact h u hu
+    · exact h
+  | updateValue v w =>
+    simp only [step]; split
+    · next hvw =>
+      intro u hu
+      simp only [setVar] at hu ⊢
+      split
+      · exact hU _ _ (h v hvw.1)
+      · exact h u hu
+    · exact h
+  | applyBCs v =>
+    simp only [step]; split
+    · intro u hu
+      rw [applyBCs_vars']; split
+      · exact hA _ _
+      · exact h u hu
+    · exact h
+  | solve v =>
+    by_cases hv : v < s.nV
+    · rw [step_solve hv]
+      intro u hu
+      rw [postSolve_vars]; split
+      · exact hA _ _
+      · next hne => rw [preSolve_vars_ne s hne]; exact h u (by simpa [postSolve_nV, preSolve_nV] using hu)
+    · simp only [step, if_neg hv]; exact h
+  | solveExplicit v =>
+    by_cases hv : v < s.nV
+    · rw [step_solveExplicit hv]
+      intro u hu
+      rw [postExplicit_vars]; split
+      · exact hA _ _
+      · next hne =>
+        rw [preExplicit_nV] at hne
+        have hu' : u < s.nV := by
+          have : u < s.nV + 1 := by simpa [postExplicit_nV, preExplicit_nV] using hu
+          omega
+        rcases preExplicit_vars s v u with e | ⟨_, e⟩
+        · rw [e]; exact h u hu'
+        · rw [e]; exact hA _ _
+    · simp only [step, if_neg hv]; exact h
+  | copy v =>
+    by_cases hv : v < s.nV
+    · intro u hu
+      rw [step_copy_nV hv] at hu
+      rw [step_copy_vars hv]; split
+      · exact hC v rfl hv (h v hv)
+      · exact h u (by omega)
+    · rw [step_invalid_copy hv]; exact h
+  | arith v =>
+    by_cases hv : v < s.nV
+    · intro u hu
+      rw [step_arith_nV hv] at hu
+      rw [step_arith_vars hv]; split
+      · exact hM _ _ _ _
+      · exact h u (by omega)
+    · rw [step_invalid_arith hv]; exact h
+
+
 end PyFV.State
